@@ -199,10 +199,16 @@ def solve_oracle(spec, ops, step_ticks, cb_ticks, obs, twin, min0, ctl=None):
             if assigned is not None:
                 want_itnum = assigned + 1
             if ob["itnum"] != want_itnum:
-                touched = o["cb"] and ctl is not None and any(c is not None and c[1] is not None for c in ctl[j : j + m])
+                # exactly the known pattern: the callbacks of this call left maxiter <= 0 and the counter is one short
+                left = None
+                if o["cb"] and ctl is not None:
+                    for c in ctl[j : j + m]:
+                        if c is not None and c[1] is not None:
+                            left = c[1]
+                touched = left is not None and left <= 0 and ob["itnum"] == want_itnum - 1
                 return {**where, "fails": f"counter after solve is {ob['itnum']}, expected {want_itnum} (start {itnum}, maxiter {o['maxiter']}"
                         + (f", last callback assigned itnum={assigned}" if assigned is not None else "")
-                        + (", callbacks assigned maxiter" if touched else "") + ")",
+                        + (f", callbacks left maxiter={left}" if touched else "") + ")",
                         "callback_assigned_maxiter": bool(touched)}
             want_ret = twin["min"][k + m - 1] if k + m > 0 else min0
             if not D.same_flat(ob["ret"], want_ret):
